@@ -282,8 +282,58 @@ def t1(prog: Program, chk: Check) -> None:
             chk.add("T1", u, f"{norm(c.func)}()", ok, why, c)
 
 
+_RET_DEPS: Dict[str, Set[str]] = {}
+
+
+def _return_param_deps(prog, mu: Unit) -> Set[str]:
+    """Parameters of `mu` on which its return value data-depends."""
+    if mu.qual in _RET_DEPS:
+        return _RET_DEPS[mu.qual]
+    _RET_DEPS[mu.qual] = set(mu.params)      # recursion guard: conservative
+    dm = DefUse(mu, CFG(mu.node, exc_edges=False))
+    deps = set()
+    for n in dm.cfg.nodes:
+        if n.kind == "stmt" and isinstance(n.ast, ast.Return) and n.ast.value is not None:
+            for p in mu.params:
+                if depends_on(dm, n.ast.value, n.id, {p}):
+                    deps.add(p)
+    _RET_DEPS[mu.qual] = deps
+    return deps
+
+
+def _mk_call_filter(prog, u: Unit):
+    ci = prog.class_of_unit(u)
+
+    def flt(call: ast.Call):
+        mc = method_call(call)
+        if not (mc and mc[0] == "self" and ci is not None):
+            return None
+        mu = prog.find_method(ci, mc[1])
+        if mu is None or any(isinstance(a, ast.Starred) for a in call.args):
+            return None
+        deps = _return_param_deps(prog, mu)
+        params = mu.params[1:]
+        out = []
+        for i, a in enumerate(call.args):
+            if i < len(params) and params[i] in deps:
+                out.append(a)
+        for k in call.keywords:
+            if k.arg in deps:
+                out.append(k.value)
+        if "self" in deps:
+            # the callee reads object state: keep the attribute reads it performs
+            for x in ast.walk(mu.node):
+                if isinstance(x, ast.Attribute) and isinstance(x.ctx, ast.Load) and \
+                        dotted(x) and dotted(x).startswith("self.") and \
+                        not any(dotted(x) == f"self.{m}" for m in ci.methods):
+                    out.append(x)
+        return out
+    return flt
+
+
 def _guarded(prog, u: Unit, du: DefUse, c: ast.Call, nid: int, tsrc: Set[str]):
     g = du.cfg
+    cf = _mk_call_filter(prog, u)
     # enclosing loops, innermost first
     loops = []
 
@@ -309,8 +359,8 @@ def _guarded(prog, u: Unit, du: DefUse, c: ast.Call, nid: int, tsrc: Set[str]):
             if isinstance(it, ast.Call) and dotted(it.func) == "range":
                 lnid = du.node_of(it)
                 bound = it.args[-1] if len(it.args) <= 2 else it.args[1]
-                ds = depends_on(du, bound, lnid, STEP_SOURCES)
-                dt_ = depends_on(du, bound, lnid, tsrc)
+                ds = depends_on(du, bound, lnid, STEP_SOURCES, call_filter=cf)
+                dt_ = depends_on(du, bound, lnid, tsrc, call_filter=cf)
                 if ds and dt_:
                     return True, f"for ... in range({norm(bound)}): bound depends on step and target"
                 return False, (f"the loop bound `{norm(bound)}` does not depend on "
@@ -318,8 +368,8 @@ def _guarded(prog, u: Unit, du: DefUse, c: ast.Call, nid: int, tsrc: Set[str]):
                                f"compute() takes the same number of further steps")
         if isinstance(loop, ast.While):
             lnid = du.node_of(loop.test)
-            ds = depends_on(du, loop.test, lnid, STEP_SOURCES)
-            dt_ = depends_on(du, loop.test, lnid, tsrc)
+            ds = depends_on(du, loop.test, lnid, STEP_SOURCES, call_filter=cf)
+            dt_ = depends_on(du, loop.test, lnid, tsrc, call_filter=cf)
             if ds and dt_:
                 return True, f"while {norm(loop.test)}: test depends on step and target"
     # not guarded by a loop condition: look for a guard at the top of the callee
